@@ -16,6 +16,7 @@ FUNCS = [
     "sc62015.pysc62015.instr.instructions:every <Mnemonic>.lift/lift_operation1/lift_operation2/analyze, lift_multi_byte, bcd_add_emul, bcd_sub_emul, PRE.fuse",
     "sc62015.pysc62015.intrinsics:eval_intrinsic_halt/off/reset/tcl",
     "sc62015.pysc62015.cached_decoder:CachedFetchDecoder.*",
+    "sc62015.pysc62015.stepper:CPUStepper.step, _SnapshotMemory, CPURegistersSnapshot.diff; sc62015.pysc62015.cpu:CPU.step_snapshot/apply_snapshot/snapshot_registers (C07)",
     "(executed in context, third party) binja_test_mocks.eval_llil:evaluate_llil and EVAL_LLIL handlers",
 ]
 
@@ -110,7 +111,7 @@ def hist_units(tier):
                 continue
             block = op in cpu.BLOCK_OPS or (op == 0xEF and pre is not None)
             if tier == "quick":
-                hs = [0, 2, 4] if block else ([0, 3] if op in (0x06, 0x07, 0x01, 0x04, 0x05) else ([0, 5] if op in (0xDE, 0xDF, 0xFF, 0xEF) else [0]))
+                hs = [0, 2, 4] if block else ([0, 3] if op in (0x06, 0x07, 0x01, 0x04, 0x05) else ([0, 5] if op in (0xDE, 0xDF, 0xFF, 0xEF) else [0, 6]))
             else:
                 hs = list(range(nh))
             for h in hs:
@@ -178,6 +179,10 @@ def run(prop, tier):
     else:
         units = hist_units(tier)
         reps = common.run_units("contracts.cpu:hist_entry", units, budget=600)
+        # the snapshot stepper (stepper.py: CPUStepper.step / CPU.step_snapshot) against its contract: the effect of
+        # execute_instruction on a fresh Emulator, whatever was stepped before
+        sunits = [dict(case=c, sparse=sp, default=d, kind="stepper") for c in range(len(cpu.STEP_CASES)) for sp in (False, True) for d in ((0,) if not sp else (0, 0x5A))]
+        reps += common.run_units("contracts.cpu:unit_stepper", sunits, budget=300)
         v.absorb(reps, known)
         proved = (v.obligations, v.discharged)
         cunits = [dict(pre=pre, opcode=op, samples=6 if tier == "quick" else 40, seed=common.seed(), kind="concrete-history")
@@ -188,7 +193,9 @@ def run(prop, tier):
         v.extra["bounded_obligations"] = dict(generated=sum(r.get("obligations", 0) for r in creps), discharged=sum(r.get("proved", 0) for r in creps),
                                               note="concrete sampled histories sharing leading instruction bytes (caches keyed on partial bytes): bounded, not counted")
         v.bounded = _bounded_note(units) + [dict(part="history", bound="3 concrete history instructions executed on the same Emulator object at the same address; TEMP0-13 fully symbolic and different in the two runs",
-                                                 note="TEMP contents are covered for all values; other hidden state only through the listed histories")]
+                                                 note="TEMP contents are covered for all values; other hidden state only through the listed histories"),
+                                            dict(part="CPUStepper.step / CPU.step_snapshot", bound=f"{len(cpu.STEP_CASES)} instructions with direct operand addresses (image keys must stay concrete), register values and data bytes symbolic, every case also used as history",
+                                                 note="contract: result == execute_instruction on a fresh Emulator; proved per listed instruction, the instruction list itself is a sample")]
         from props import rust_standin as RS
         vec = dict(hist=dict(seed=common.seed() + 1, patterns=6 if tier == "quick" else 40),
                    split=dict(totals=[6, 12, 40] if tier == "quick" else [4, 6, 9, 12, 25, 40, 100, 333]))
